@@ -27,6 +27,7 @@ import (
 	"github.com/lindb/lindb/kv"
 	"github.com/lindb/lindb/kv/table"
 	"github.com/lindb/lindb/kv/version"
+	"github.com/lindb/lindb/pkg/bufioutil"
 	"github.com/lindb/lindb/pkg/timeutil"
 
 	"github.com/lindb/lindb/zzverif/internal/core"
@@ -136,7 +137,7 @@ var parkIDs = map[string]bool{
 	"family.deleteObsoleteFiles.afterPending": true, "family.deleteObsoleteFiles.afterActive": true,
 	"family.deleteObsoleteFiles.afterRollup": true,
 	"kv.listDir.after":                       true, "kv.removeDir.before": true, "kv.removeDir.after": true,
-	"compact.beforeRun": true, "table.newWriter.before": true, "merge.first": true, "flush.ready": true,
+	"compact.beforeRun": true, "table.newWriter.before": true, "table.newWriter.after": true, "merge.first": true,
 	"versionSet.persist.beforeSync": true,
 }
 
@@ -332,13 +333,17 @@ func install() {
 		func(string) { hook("kv.removeDir.after") })
 	kv.VerifC02WrapCompactJob(func() { hook("compact.beforeRun") })
 	version.VerifC02WrapManifestWriter(func() { hook("versionSet.persist.beforeSync") })
-	table.VerifC02WrapNewWriter(func(fileName string) {
+	// table-writer seam (fires inside table.NewStoreBuilder): park before and after the file is created
+	table.VerifC01SetNewWriter(func(fileName string) (bufioutil.BufioWriter, error) {
 		if t := selfThr(); t != nil {
 			if n, ok := tableNo(filepath.Base(fileName)); ok {
 				t.out = n
 			}
 		}
 		hook("table.newWriter.before")
+		w, err := bufioutil.NewBufioStreamWriter(fileName)
+		hook("table.newWriter.after")
+		return w, err
 	})
 }
 
@@ -369,6 +374,7 @@ type kase struct {
 	threshold int
 
 	readers  map[int]*thr
+	closers  map[int]*thr // second Close() callers on a shared snapshot
 	jobs     []*thr
 	nReaders int
 
@@ -583,6 +589,14 @@ func (k *kase) deleteMonitor(n int64) {
 			}
 		}
 	}
+	for _, j := range k.jobs {
+		if j.alive && !j.done && j.out == n && (j.kind == "flush" || j.kind == "compact") {
+			switch j.at {
+			case "ready", "cLocked", "cSnapped", "cSwapped", "cDecd", "cRemoved":
+				k.failf("delete-unfinished-writer-table", -1, "table %d is being deleted while job %s (%s, at %s) has created it and not finished its commit", n, j.name, j.kind, j.at)
+			}
+		}
+	}
 	for _, p := range kv.VerifC02Pending(k.fam) {
 		if p == n {
 			k.failf("delete-pending-output", -1, "table %d is being deleted while it is a pending output", n)
@@ -601,7 +615,7 @@ func (k *kase) pcName(t *thr, id string) string {
 	switch id {
 	case "table.newWriter.before":
 		return "allocd"
-	case "flush.ready":
+	case "table.newWriter.after":
 		return "ready"
 	case "versionSet.persist.beforeSync":
 		return "cLocked"
@@ -775,8 +789,6 @@ func (k *kase) enabled(t *thr) bool {
 		return true
 	case "ready", "picked", "merging":
 		return k.lockFree()
-	case "allocd":
-		return t.kind == "flush" || k.lockFree()
 	}
 	return true
 }
@@ -791,8 +803,6 @@ func (k *kase) wouldBlock(t *thr) bool {
 		return t.kind == "flush" || t.kind == "rollup"
 	case "ready", "picked", "merging":
 		return true
-	case "allocd":
-		return t.kind == "compact"
 	}
 	return false
 }
@@ -836,7 +846,6 @@ func (k *kase) body(t *thr) func() {
 					return
 				}
 			}
-			k.s.park("flush.ready")
 			t.err = fl.Commit()
 		}
 	case "compact":
@@ -949,6 +958,71 @@ func (k *kase) exec(op string) string {
 				}
 			}
 		}
+	case "close2", "run2":
+		// a second Close() on the SAME snapshot object (tsdb shares one snapshot between several result
+		// sets, each closing it) while the first Close() is parked inside; with the CAS guard it
+		// returns at once
+		r := k.readers[num(ws[1])]
+		var c2 *thr
+		if ws[0] == "close2" {
+			c2 = &thr{name: r.name + "b", kind: "reader", ver: r.ver, parked: make(chan string), resume: make(chan struct{})}
+			if k.closers == nil {
+				k.closers = map[int]*thr{}
+			}
+			k.closers[num(ws[1])] = c2
+			k.s.start(c2, func() { r.snap.Close() })
+		} else {
+			c2 = k.closers[num(ws[1])]
+			k.beforeResume(c2)
+			k.s.resumeT(c2)
+		}
+		got, ok := k.s.settle([]*thr{c2})
+		if !ok {
+			k.broken = "second Close() did not return"
+			res = "timeout"
+			break
+		}
+		if got[c2] == "done" {
+			c2.done, c2.alive = true, false
+			if ws[0] == "close2" {
+				res = "at=noop"
+			} else {
+				res = "at=closed"
+			}
+		} else {
+			res = k.parked(c2, got[c2])
+		}
+	case "parget":
+		// two snapshots ask the cache for the same never-opened table at the same time
+		a, b := k.readers[num(ws[1])], k.readers[num(ws[2])]
+		f := int64(num(ws[3]))
+		start := make(chan struct{})
+		type rr struct {
+			rd  table.Reader
+			err error
+		}
+		outs := make([]chan rr, 2)
+		for i, t := range []*thr{a, b} {
+			outs[i] = make(chan rr, 1)
+			go func(t *thr, ch chan rr) {
+				<-start
+				rd, err := t.snap.GetReader(table.FileNumber(f))
+				ch <- rr{rd, err}
+			}(t, outs[i])
+		}
+		close(start)
+		var parts []string
+		for i, t := range []*thr{a, b} {
+			o := <-outs[i]
+			if o.err != nil || o.rd == nil {
+				parts = append(parts, "err")
+			} else {
+				t.held = append(t.held, heldReader{file: f, rd: o.rd})
+				parts = append(parts, "ok")
+			}
+		}
+		res = strings.Join(parts, " ")
+		k.nonTrivial()
 	case "close":
 		t := k.readers[num(ws[1])]
 		t.closing = true
@@ -1355,7 +1429,9 @@ const (
 	nDirectAL = 4  // allocations while a commit is between reading and storing the file counter
 	nDirectRU = 4  // real rollup job with an absent target store after the marked tables were compacted away
 	nDirectFF = 4  // FindReaders failing at an uncached table while another snapshot retains an earlier one
-	nDirected = nWitness + nDirectDO + nDirectCC + nDirectAL + nDirectRU + nDirectFF
+	nDirectC2 = 4  // one shared snapshot closed twice, the second Close() overlapping the first
+	nDirectPG = 2  // rounds of two concurrent GetReader calls on a never-opened table
+	nDirected = nWitness + nDirectDO + nDirectCC + nDirectAL + nDirectRU + nDirectFF + nDirectC2 + nDirectPG
 )
 
 func (k *kase) lastJob() string { return k.jobs[len(k.jobs)-1].name }
@@ -1382,9 +1458,6 @@ func (k *kase) directDO(rng *rand.Rand, d int) {
 		k.exec("spawn flush " + k.newPayload(rng))
 	}
 	w = k.lastJob()
-	if compact && stage == "ready" {
-		stage = "merging"
-	}
 	k.runUntil(w, stage)
 	k.exec("spawn delobs")
 	do := k.lastJob()
@@ -1432,7 +1505,7 @@ func (k *kase) directCC(rng *rand.Rand, d int) {
 		case "flush":
 			k.runUntil(name, "ready")
 		case "compact":
-			k.runUntil(name, "allocd")
+			k.runUntil(name, "ready")
 		}
 	}
 	t1 := spawn(pair[0])
@@ -1559,6 +1632,77 @@ func (k *kase) directFindFail(rng *rand.Rand, d int) {
 	k.cleanup()
 	k.exec(fmt.Sprintf("find 0 %d", key))
 	k.cleanup()
+	k.drain(rng)
+}
+
+// directClose2: snapshot A is shared and closed twice (the second Close() starts while the first
+// is parked after ref.Dec / after version.Release); snapshot B of the same version stays open; a
+// compaction then replaces the version and cleans up. B must stay protected.
+func (k *kase) directClose2(rng *rand.Rand, d int) {
+	k.setupFlushes(rng, 2)
+	k.exec("acquire 0") // A (shared)
+	k.exec("acquire 1") // B
+	k.nReaders = 2
+	k.exec("close 0") // first Close(): parked after ref.Dec
+	if d%2 == 1 {
+		k.exec("run r0") // … parked after version.Release (snapshot.close.afterRelease)
+	}
+	k.exec("close2 0")
+	for i := 0; i < 8 && k.broken == "" && k.closers[0] != nil && !k.closers[0].done; i++ {
+		k.exec("run2 0") // only if the second Close() did not return at once
+	}
+	k.finish("r0")
+	if d >= 2 {
+		k.exec("close2 0") // a late third Close()
+		for i := 0; i < 8 && k.broken == "" && !k.closers[0].done; i++ {
+			k.exec("run2 0")
+		}
+	}
+	k.exec("spawn compact")
+	k.finish(k.lastJob())
+	k.exec("spawn delobs")
+	k.finish(k.lastJob())
+	for key := 0; key < numKeys; key++ {
+		k.exec(fmt.Sprintf("load 1 %d", key))
+	}
+	k.drain(rng)
+}
+
+// directParGet: rounds of two fresh snapshots asking the cache for the same unmapped table at the
+// same time (real goroutines, released together); one closes, Cleanup runs, the other must still
+// have its reader.
+func (k *kase) directParGet(rng *rand.Rand, d int) {
+	k.setupFlushes(rng, 1+d)
+	for round := 0; round < 30 && k.broken == ""; round++ {
+		k.cleanup()
+		a, b := k.nReaders, k.nReaders+1
+		k.nReaders += 2
+		k.exec(fmt.Sprintf("acquire %d", a))
+		k.exec(fmt.Sprintf("acquire %d", b))
+		cached := map[int64]bool{}
+		for _, e := range table.VerifC02CacheEntries(kv.VerifC02Cache(k.store)) {
+			n, _ := tableNo(e.FileName)
+			cached[n] = true
+		}
+		var f int64 = -1
+		for _, fm := range k.readers[a].ver.GetAllFiles() {
+			if n := fm.GetFileNumber().Int64(); !cached[n] && (f < 0 || n < f) {
+				f = n
+			}
+		}
+		if f >= 0 {
+			k.exec(fmt.Sprintf("parget %d %d %d", a, b, f))
+		}
+		first, second := a, b
+		if round%2 == 1 {
+			first, second = b, a
+		}
+		k.exec(fmt.Sprintf("close %d", first))
+		k.finish(fmt.Sprintf("r%d", first))
+		k.cleanup()
+		k.exec(fmt.Sprintf("close %d", second))
+		k.finish(fmt.Sprintf("r%d", second))
+	}
 	k.drain(rng)
 }
 
@@ -1902,11 +2046,21 @@ func (area) Run(c *core.Ctx) error {
 			k.directRollup(rng, i-nWitness-nDirectDO-nDirectCC-nDirectAL)
 			c.NonTrivial()
 			c.Branch("directed:rollup-job-absent-target")
-		} else if i < nDirected {
+		} else if i < nWitness+nDirectDO+nDirectCC+nDirectAL+nDirectRU+nDirectFF {
 			k.racy = racy
 			k.directFindFail(rng, i-nWitness-nDirectDO-nDirectCC-nDirectAL-nDirectRU)
 			c.NonTrivial()
 			c.Branch("directed:failing-FindReaders")
+		} else if i < nWitness+nDirectDO+nDirectCC+nDirectAL+nDirectRU+nDirectFF+nDirectC2 {
+			k.racy = racy
+			k.directClose2(rng, i-nWitness-nDirectDO-nDirectCC-nDirectAL-nDirectRU-nDirectFF)
+			c.NonTrivial()
+			c.Branch("directed:shared-snapshot-closed-twice")
+		} else if i < nDirected {
+			k.racy = racy
+			k.directParGet(rng, i-nWitness-nDirectDO-nDirectCC-nDirectAL-nDirectRU-nDirectFF-nDirectC2)
+			c.NonTrivial()
+			c.Branch("directed:concurrent-GetReader")
 		} else {
 			k.racy = racy
 			steps := 50 + rng.Intn(70)
